@@ -139,7 +139,7 @@ def main(tier_):
         rest = [c for c in all_cases if c["id"] not in pid_]
         rnd.shuffle(rest)
         rnd.shuffle(prio)
-        all_cases = prio[:4500] + rest[:500]
+        all_cases = prio[:3000] + rest[:400]
         stats["prio_space"] = len(prio)
     # keep shards homogeneous in feature set
     all_cases.sort(key=lambda c: json.dumps(c["feat"]))
@@ -147,7 +147,7 @@ def main(tier_):
     race.outcome_stats(results, stats)
     race.judge(("C02",), all_cases, results, verdicts, stats, samples)
     # action-level conformance of the real call sequences with Lookup.tla (model drift metric)
-    conf = lookup_conformance(all_cases, results, max_cases=400 if quick else None, rnd=rnd)
+    conf = lookup_conformance(all_cases, results, max_cases=300 if quick else None, rnd=rnd)
     for d in conf["drift"][:10]:
         print("MODEL-DRIFT (not an alarm): real trace of %s is not a behaviour of Lookup.tla; first unmatched event #%s/%s: %s" % (d.get("case"), d.get("at_event"), d.get("of"), json.dumps(d.get("first_unmatched"))[:200]))
     wall = time.time() - t0
